@@ -297,6 +297,7 @@ Definition hist_calls : list hcall :=
 
 Lemma insAB2_same_model : same_model insA2 insB2.
 Proof. unfold same_model, insA2, insB2. cbn [s_nodes s_edges s_observed]. repeat split; perm_lists. Qed.
+Print Assumptions insAB2_same_model.
 
 Example C02_history_example :
   Forall hcall_wf hist_calls
